@@ -120,7 +120,7 @@ func (parser *syslogParser) Parse(input []byte, timestamp time.Time) *base.LogRe
 		return nil
 	}
 
-	if val[len(val)-2:] != ">1" {
+	if len(val) < 3 || val[len(val)-2:] != ">1" {
 		parser.onMalformed(record, fmt.Sprintf("invalid syslog pri '%s'", val), input)
 		return nil
 	}
